@@ -2102,15 +2102,48 @@ def h_range(E, ins, x, y):
             k = E.choose(len(items))
             items = items[k:] + items[:k]
         return RangeIter('map', items)
-    if type(x) is bytes:
-        s = x.decode('utf-8', errors='replace')
-        items = []
-        pos = 0
-        for c in s:
-            items.append((pos, ord(c)))
-            pos += len(c.encode('utf-8'))
-        return RangeIter('str', items)
+    if type(x) is bytes or type(x) is SymStr:
+        return RangeIter('str', _range_string(E, list(x) if type(x) is bytes else list(x.bs)))
     raise Unsupported('range over %r' % (x,))
+
+
+def _range_string(E, bs):
+    """Go's range over a string: (byte offset, rune) pairs, an invalid byte giving (offset, U+FFFD) and advancing
+    by one. Symbolic bytes: forked into ASCII / stray continuation byte (invalid, U+FFFD); a symbolic multi-byte lead
+    is not supported."""
+    items = []
+    i, n = 0, len(bs)
+    while i < n:
+        b = bs[i]
+        if type(b) is not int:
+            if E.branch(z3.ULT(b, z3.BitVecVal(0x80, 8))):
+                items.append((i, E.convert_int(b, 8, False, 32, True)))
+                i += 1
+                continue
+            if E.branch(z3.ULE(b, z3.BitVecVal(0xBF, 8))):
+                items.append((i, 0xFFFD))
+                i += 1
+                continue
+            raise Unsupported('range over a string with a symbolic multi-byte UTF-8 lead byte')
+        if b < 0x80:
+            items.append((i, b))
+            i += 1
+            continue
+        need = 2 if 0xC2 <= b <= 0xDF else 3 if 0xE0 <= b <= 0xEF else 4 if 0xF0 <= b <= 0xF4 else 0
+        tail = bs[i + 1:i + need] if need else []
+        if need and len(tail) == need - 1 and all(type(t) is int for t in tail):
+            try:
+                r = bytes([b] + tail).decode('utf-8')
+                items.append((i, ord(r)))
+                i += need
+                continue
+            except UnicodeDecodeError:
+                pass
+        elif need and any(type(t) is not int for t in tail):
+            raise Unsupported('range over a string: multi-byte sequence with symbolic continuation bytes')
+        items.append((i, 0xFFFD))
+        i += 1
+    return items
 
 
 def h_next(E, ins, x, y):
